@@ -523,3 +523,16 @@ func userTargetsOf(p *spec.Program) map[string]bool {
 	}
 	return m
 }
+
+// rejectGuard makes the run inconclusive when the compiler rejected more than
+// maxFrac of the intended-valid programs: rejections are not violations of the
+// property, but a monitor that mostly sees rejections has observed too little.
+func rejectGuard(ctx *h.Ctx, maxFrac float64) {
+	if ctx.OnlySub != "" {
+		return
+	}
+	rej, acc := ctx.Counter("rejected"), ctx.Counter("accepted")
+	if rej+acc > 0 && float64(rej) > maxFrac*float64(rej+acc) {
+		ctx.Inconclusive("%d of %d intended-valid programs were rejected by the compiler (limit %.0f%%); see the 'rejected:' counters", rej, rej+acc, maxFrac*100)
+	}
+}
